@@ -220,6 +220,9 @@ class ScriptedApp:
             cid = rec["cid"]
             rec["end"] = self.k.log("app", cid, rec["ridx"], "end")
             self.active[cid] = self.active.get(cid, 1) - 1
+            st = rec["script"].get("starve")
+            if st:
+                self.k.starve(st[0], st[1])
 
     def _maybe_raise(self, sc, step):
         ra = sc.get("raise_at")
